@@ -173,10 +173,12 @@ Definition writers (rs : list node) : list (list string * handler) :=
 (* ---- correspondence cases ------------------------------------------------------------------------ *)
 
 (* what the real router did with one request (harness/cmd/obs-router):
-   ob_rejected : the answer is 400 with errorCode READ_ONLY
-   ob_matched  : the endpoint pattern chi recorded in RoutePatterns (None: routing ended in 404/405 or never began)
-   ob_writes   : the write calls the recording backend.Ledger saw *)
-Record obs := { ob_status : nat; ob_rejected : bool; ob_matched : option string; ob_writes : list wkind }.
+   ob_rejected  : the answer is 400 with errorCode READ_ONLY
+   ob_nohandler : chi itself answered 404 / 405 (its NotFound / MethodNotAllowed responder ran)
+   ob_matched   : the endpoint pattern chi recorded in RoutePatterns (None: routing did not arrive at an endpoint)
+   ob_writes    : the write calls the recording backend.Ledger saw *)
+Record obs := { ob_status : nat; ob_rejected : bool; ob_nohandler : bool; ob_matched : option string;
+                ob_writes : list wkind }.
 
 Definition wkind_eqb (a b : wkind) : bool :=
   match a, b with
@@ -186,7 +188,7 @@ Definition wkind_eqb (a b : wkind) : bool :=
 
 Definition is_nil {A} (l : list A) : bool := match l with [] => true | _ => false end.
 
-(* (read-only flag, the request is well formed for the route it aims at, request, observation) *)
+(* (read-only flag, the request is a well-formed call of a registered route, request, observation) *)
 Definition case : Type := bool * bool * request * obs.
 
 Definition check_case_with (cfg : config) (c : case) : bool :=
@@ -194,15 +196,23 @@ Definition check_case_with (cfg : config) (c : case) : bool :=
   | (ro, wf, req, ob) =>
       match serve cfg ro req with
       | Rejected =>
-          ob_rejected ob && is_nil (ob_writes ob) && Nat.eqb (ob_status ob) 400
+          ob_rejected ob && negb (ob_nohandler ob) && is_nil (ob_writes ob) && Nat.eqb (ob_status ob) 400
           && match ob_matched ob with None => true | Some _ => false end
       | NoHandler =>
+          (* chi's own 404/405 — or, the model having no refusals by the muxes' own middlewares (LedgerMiddleware
+             answers 404 for the empty ledger name before the v1 sub-router routes), an answer given on the way;
+             in both cases no endpoint *)
           negb (ob_rejected ob) && is_nil (ob_writes ob)
-          && (Nat.eqb (ob_status ob) 404 || Nat.eqb (ob_status ob) 405)
+          && (if ob_nohandler ob then Nat.eqb (ob_status ob) 404 || Nat.eqb (ob_status ob) 405 else negb wf)
           && match ob_matched ob with None => true | Some _ => false end
       | Reached h =>
-          negb (ob_rejected ob)
-          && match ob_matched ob with Some f => String.eqb f (h_full h) | None => false end
+          negb (ob_rejected ob) && negb (ob_nohandler ob)
+          && match ob_matched ob with
+             | Some f => String.eqb f (h_full h)
+             (* refused on the way by a middleware, as above: accepted for requests that are not well formed, when
+                chi did not answer 404/405 itself and nothing was written *)
+             | None => negb wf && is_nil (ob_writes ob)
+             end
           (* only the writes the translator attributes to the handler ... *)
           && forallb (fun k => existsb (wkind_eqb k) (h_writes h)) (ob_writes ob)
           (* ... and, for a well-formed request, a write exactly when it is classified a writer *)
